@@ -47,6 +47,43 @@ def build_harness():
     _built = True
 
 
+_pybuilt = False
+PYPKG = os.path.join(WORK, "pypkg")
+PYDIR = os.path.join(VERIF, "py")
+
+
+def build_pyext():
+    """(Re)build the PyO3 extension from /repo's working tree and assemble an importable package
+    (bourse/ = /repo/src/bourse + core.so) under /verif/work/pypkg.  Nothing is written to /repo."""
+    global _pybuilt
+    if _pybuilt:
+        return
+    py = shutil.which("python3-vt")
+    if not py:
+        raise ToolError("python3-vt (CPython 3.11 + numpy) not found")
+    tgt = os.path.join(WORK, "pytarget")
+    env = dict(os.environ, CARGO_NET_OFFLINE="true", CARGO_TARGET_DIR=tgt, PYO3_PYTHON=py)
+    t = time.time()
+    r = subprocess.run(["cargo", "build", "-p", "bourse", "--offline"], cwd="/repo", env=env, text=True, capture_output=True)
+    if r.returncode != 0:
+        raise ToolError("extension build failed:\n" + r.stderr[-4000:])
+    shutil.rmtree(os.path.join(PYPKG, "bourse"), ignore_errors=True)
+    os.makedirs(PYPKG, exist_ok=True)
+    shutil.copytree("/repo/src/bourse", os.path.join(PYPKG, "bourse"), ignore=shutil.ignore_patterns("__pycache__"))
+    shutil.copy(os.path.join(tgt, "debug", "libbourse.so"), os.path.join(PYPKG, "bourse", "core.so"))
+    log("[build] python extension built in %.1fs" % (time.time() - t))
+    _pybuilt = True
+
+
+def pyenv():
+    return dict(os.environ, PYTHONPATH=PYPKG + os.pathsep + os.path.join(PYDIR, "standins"), VERIF_WORK=WORK,
+                PYTHONDONTWRITEBYTECODE="1")
+
+
+def pycmd(script, *args):
+    return [shutil.which("python3-vt"), os.path.join(PYDIR, script)] + [str(a) for a in args]
+
+
 def tla_set(xs):
     def one(x):
         if isinstance(x, bool):
@@ -121,11 +158,15 @@ def gen_replay(tag, base, consts, cfg_lines, replayer, replayer_args, workers=8,
     d = run_dir(tag)
     write_model(d, "MC", base, consts, cfg_lines)
     env = dict(os.environ, VERIF_WORK=WORK)
+    if isinstance(replayer, list):      # a Python replayer: full command, run against the built extension
+        build_pyext()
+        cmd, env2 = replayer + [str(a) for a in replayer_args], pyenv()
+    else:
+        cmd, env2 = [os.path.join(BIN, replayer)] + [str(a) for a in replayer_args], env
     t0 = time.time()
     p1 = subprocess.Popen(["timeout", str(timeout)] + tlc_cmd(d, "MC", workers), cwd=d,
                           stdout=subprocess.PIPE, stderr=subprocess.STDOUT, env=env)
-    p2 = subprocess.Popen([os.path.join(BIN, replayer)] + [str(a) for a in replayer_args],
-                          stdin=p1.stdout, stdout=subprocess.PIPE, text=True, env=env)
+    p2 = subprocess.Popen(cmd, stdin=p1.stdout, stdout=subprocess.PIPE, text=True, env=env2)
     p1.stdout.close()
     out, _ = p2.communicate()
     rc1 = p1.wait()
@@ -217,13 +258,13 @@ def tagged_lines(text, tag):
     return out
 
 
-def validate_trace(tag, base, trace_file, consts=None, timeout=600, heap="4g"):
+def validate_trace(tag, base, trace_file, consts=None, timeout=600, heap="4g", view=None):
     """TLC validates one recorded ndjson trace against trace spec `base` (TSpec/Track/Accepted/Report).
     Returns dict(accepted, reject (decoded TRACE-REJECT payload or None), states, wall_s, text)."""
     d = run_dir(tag)
     consts = dict({"MaxPrice": MAXPRICE} if consts is None else consts)
     write_model(d, "MC", base, consts,
-                ["SPECIFICATION TSpec", "INVARIANT Report", "CONSTRAINT Track", "POSTCONDITION Accepted"])
+                ["SPECIFICATION TSpec", "INVARIANT Report", "CONSTRAINT Track", "POSTCONDITION Accepted"] + (["VIEW " + view] if view else []))
     env = dict(os.environ, TRACE=trace_file,
                JAVA_TOOL_OPTIONS="-Xss1g -Xmx%s -Dtlc2.tool.queue.IStateQueue=StateDeque" % heap)
     t0 = time.time()
